@@ -542,7 +542,7 @@ TrRx ==
          cums  == {c.cum : c \in sacks \cup shuts}
          ncum  == IF live /\ cums # {} THEN MaxI(ackCum[to], MaxF(cums)) ELSE ackCum[to]
          \* only TSNs the sender really sent are remembered as gap-acked (nothing else is ever asked about)
-         ngap  == IF live THEN (ackGap[to] \cup {t \in DOMAIN ch[to] : \E c \in sacks : InGaps(c, t)}) ELSE ackGap[to]
+         ngap  == IF live THEN (ackGap[to] \cup UNION {{t \in GapTSNs(c) : t \in DOMAIN ch[to]} : c \in sacks}) ELSE ackGap[to]
          newly == {t \in DOMAIN ch[to] : (t <= ncum \/ t \in ngap) /\ ~(t <= ackCum[to] \/ t \in ackGap[to])}
          inits == {c \in ChunksOfKind(p, {"init", "initack"}) : Wellformed(c)}
          \* C10: miss indications. The sender's own view of which chunks are outstanding and not abandoned is taken
